@@ -53,6 +53,7 @@ static int phase;
 static uint64 now;
 static std::set<int> touchedTops, excused, protectedNodes;   // since the last recalculation / in this sweep
 static long nAsks, nFires, nActionsInCallbacks, nGptActions;
+static std::set<int> lateTops;   // top-level subtrees under an already finished root that a GetPulseTime() callback of a later root changed: repaired in the next cycle
 static long gptActionsThisSweep; static int curRootIdx; static uint64 sweepFloor; static bool optStackInvalidate;
 static std::map<int, std::pair<int, uint64> > scriptedGptInvalidate; static std::map<int, int> scriptedGptAttach;   // regress witnesses: node -> (target, new time) / node -> child to adopt
 
@@ -265,6 +266,7 @@ static void GptAction(Node * self)
       Node * c = (R(2) && !self->kids.empty()) ? all[self->kids[R((uint32)self->kids.size())]] : Pick(false);
       if (!c || c->parent < 0 || IsAncestorOrSelf(c, self)) return;
       const bool own = c->parent == self->id;
+      { const int ri = Attached(c) ? RootIndex(c) : -1; if (ri >= 0 && ri < curRootIdx) { const int tp = Top(c); if (tp >= 0) lateTops.insert(tp); vh::stat("actions_inside_getpulsetime_under_an_already_finished_root"); } }
       DoDetach(c, "gpt:");
       vh::stat(own ? "actions_inside_getpulsetime_detach_own_child" : "actions_inside_getpulsetime_detach_other");
    }
@@ -315,7 +317,7 @@ void Node::Pulse(const PulseArgs & a)
 
 static void Recalculate()
 {
-   std::set<int> wasInvalid; sweepFloor = NEVER; gptActionsThisSweep = 0;
+   std::set<int> wasInvalid; sweepFloor = NEVER; gptActionsThisSweep = 0; lateTops.clear();
    for (size_t i = 0; i < all.size(); i++) if (all[i]) { Node * n = all[i]; n->asked = 0; n->deferredAsk = false; if (Attached(n)) { if (!n->valid) wasInvalid.insert((int)i); else if (n->lastReturned < sweepFloor) sweepFloor = n->lastReturned; } }
    Op(vh::fmt("RECALC at %s", T(now).c_str()));
    phase = RECALC; uint64 min = NEVER;
@@ -342,7 +344,7 @@ static void Recalculate()
       else { Fail("recalc|minimum_too_early", vh::fmt("reported minimum %s, minimum over the attached nodes %s", T(min).c_str(), T(want).c_str())); return; }
    }
    Op(vh::fmt("min=%s", T(min).c_str()));
-   touchedTops.clear(); excused.clear();
+   touchedTops.clear(); excused.clear(); touchedTops.insert(lateTops.begin(), lateTops.end());
    for (size_t i = 0; i < all.size(); i++) if (all[i] && !all[i]->valid && Attached(all[i])) Touch(all[i]);   // its ancestors still wait for recalculation: that subtree may be deferred
    Audit();
 }
